@@ -34,7 +34,21 @@ RESP_LINE = b'{"jsonrpc":"2.0","id":"q1","result":{"tools":[]}}\n'
 NOTE_LINE = b'{"jsonrpc":"2.0","method":"notifications/message","params":{"data":"flood"}}\n'
 
 
-GROUP_EXITS = ["exception-group", "exception-group-cancel-scope-text", "exception-cancel-scope-text", "exception-group-json-text"]
+GROUP_EXITS = ["exception-group", "exception-group-cancel-scope-text", "exception-cancel-scope-text", "exception-group-json-text",
+               "exception-unrenderable", "exception-base-exception"]
+
+
+class _Unrenderable(Exception):
+    """An exception whose text cannot be produced (a failing __str__ / __repr__ of some wrapped object)."""
+
+    def __str__(self):
+        raise RuntimeError("cannot render")
+
+    __repr__ = __str__
+
+
+class _BodyExit(BaseException):
+    """Not an Exception: what a body that calls sys.exit() / is interrupted raises."""
 
 
 class _BodyError(Exception):
@@ -215,6 +229,10 @@ def run_one(ctl: explorer.Ctl, cfg: Dict[str, Any]) -> Dict[str, Any]:
                 raise ExceptionGroup("body tasks failed", [RuntimeError("Attempted to exit cancel scope in a different task")])
             if ex == "exception-cancel-scope-text":
                 raise RuntimeError("Attempted to exit cancel scope in a different task than it was entered in")
+            if ex == "exception-unrenderable":
+                raise _Unrenderable()
+            if ex == "exception-base-exception":
+                raise _BodyExit()
             if ex == "exception-group-json-text":
                 raise ExceptionGroup("body tasks failed", [TypeError("the JSON object must be str, bytes or bytearray, not dict")])
         if ex in ("task-cancel", "scope-cancel", "fail-after"):
@@ -365,7 +383,10 @@ def run_one(ctl: explorer.Ctl, cfg: Dict[str, Any]) -> Dict[str, Any]:
         except TimeoutError:
             outcome = "timeout-propagated"
         except BaseException as e:  # noqa: BLE001
-            outcome = "other:" + type(e).__name__ + ":" + str(e)[:80]
+            try:
+                outcome = "other:" + type(e).__name__ + ":" + str(e)[:80]
+            except Exception:  # noqa: BLE001
+                outcome = "other:" + type(e).__name__ + ":<unrenderable>"
         else:
             outcome = outcome or "returned"
         info["t_done"] = loop.time()
